@@ -491,6 +491,9 @@ double RescaledHmmLikelihood::getDLogLikelihoodForASite(size_t site) const
 
 void RescaledHmmLikelihood::computeD2Forward_() const
 {
+  // Make sure that first order derivatives are computed for the same variable
+  getFirstOrderDerivative(d2Variable_);
+
   // Init arrays:
   if (d2Likelihood_.size() == 0)
   {
@@ -542,7 +545,7 @@ void RescaledHmmLikelihood::computeD2Forward_() const
 
   for (size_t i = 1; i < nbSites_; i++)
   {
-    dScales_[i] = 0;
+    d2Scales_[i] = 0;
 
     emissions = &(*emissionProbabilities_)(i);
     dEmissions = &emissionProbabilities_->getDEmissionProbabilities(i);
@@ -597,7 +600,7 @@ void RescaledHmmLikelihood::computeD2Forward_() const
 
   greater<double> cmp;
   sort(d2LScales.begin(), d2LScales.end(), cmp);
-  dLogLik_ = 0;
+  d2LogLik_ = 0;
   for (size_t i = 0; i < nbSites_; ++i)
   {
     d2LogLik_ += d2LScales[i];
